@@ -75,13 +75,28 @@ fn guard<T>(sw: &mut Sweep, what: &str, m: &str, pos: (u32, u32), f: impl FnOnce
 }
 
 fn positions(text: &str) -> Vec<(u32, u32)> {
+  // Small modules: every line/column. Larger ones: every position where a token starts or ends
+  // (character-class boundaries) -- the positions at which the location search changes its answer.
+  let dense = text.len() <= 700;
   let mut ps = Vec::new();
   let lines: Vec<&str> = text.split('\n').collect();
+  let class = |b: u8| -> u8 {
+    if b.is_ascii_alphanumeric() || b == b'_' { 1 } else if b.is_ascii_whitespace() { 0 } else { 2 }
+  };
   for (l, line) in lines.iter().enumerate() {
-    for c in 0..=line.len() {
-      ps.push((l as u32, c as u32));
+    let bytes = line.as_bytes();
+    for c in 0..=bytes.len() {
+      let boundary = c == 0
+        || c == bytes.len()
+        || class(bytes[c]) != class(bytes[c - 1])
+        || class(bytes[c]) == 2;
+      if dense || boundary {
+        ps.push((l as u32, c as u32));
+      }
     }
-    ps.push((l as u32, line.len() as u32 + 7));
+    if dense || l % 7 == 0 {
+      ps.push((l as u32, line.len() as u32 + 7));
+    }
   }
   let nl = lines.len() as u32;
   ps.push((nl, 0));
@@ -146,14 +161,17 @@ fn main() {
     let op = t[0];
     let r = catch_unwind(AssertUnwindSafe(|| match op {
       "reset" => {
-        state = ServerState::new(Heap::new(), false, HashMap::new());
+        // like the CLI's language server: the std library modules are part of the workspace
+        let mut heap = Heap::new();
+        let srcs = samlang_parser::builtin_std_raw_sources(&mut heap);
+        state = ServerState::new(heap, false, srcs);
         names.clear();
-        format!("ok {} log=", tail(&state))
+        format!("ok {} log={}", tail(&state), render_log(std::mem::take(&mut state.heap.verif_log)))
       }
       "new" => {
         let mut heap = Heap::new();
         names.clear();
-        let mut srcs = HashMap::new();
+        let mut srcs = samlang_parser::builtin_std_raw_sources(&mut heap);
         for pair in t[1..].chunks(2) {
           let m = mref(&mut heap, pair[0]);
           names.insert(pair[0].to_string(), m);
